@@ -197,8 +197,8 @@ BarrierLib(w) ==
      \/ BrReset(w, B1)
      \/ \E t \in Tag, rc \in {0, 1} : UBarrierRet(w, t, B1, rc, NT)
 JcLib(w) ==
-     \/ \E s \in 0..(4 * (NT + 1)), kind \in {0, 1} : JcLd(w, J1, s, kind, ND, CalcBits(ND))
-     \/ \E e \in 0..(4 * (NT + 2)), d \in {1, Pow2(CalcBits(ND))}, ok \in {0, 1} : JcCas(w, J1, e, e + d, ok)
+     \/ \E sd \in 0..ND, sw \in 0..(NT + 1), kind \in {0, 1} : JcLd(w, J1, sd, kind, ND, CalcBits(ND), sw)
+     \/ \E ed \in 0..ND, ew \in 0..(NT + 1), ok \in {0, 1} : JcCas(w, J1, ed, ew, ed, ew + 1, ok) \/ JcCas(w, J1, ed, ew, ed + 1, ew, ok)
      \/ \E k \in 0..NT : JcWake(w, J1, Q_J, k)
      \/ \E t \in Tag : UJcWaitRet(w, t, J1, ND) \/ UJcDecRet(w, t, J1)
 UncondLib(w) ==
